@@ -167,3 +167,37 @@ def callers_of(ctx, callee_exact, include_tests=False):
         for bi, t in b.calls(exact=callee_exact):
             out.append((b, bi, t))
     return out
+
+
+def vec_literal(body, term):
+    """elements of a `vec![a, b, c]` literal whose (un-normalised) origin term is `term`; None if it is not such a literal"""
+    t = strip(term)
+    if not (t[0] == "call" and t[1].endswith("box_assume_init_into_vec_unsafe") and t[2]):
+        # vec![] / Vec::new()
+        if t[0] == "call" and t[1].endswith("Vec::<T>::new"):
+            return []
+        return None
+    nu = strip(t[2][0])
+    if not (nu[0] == "call" and nu[1].endswith("new_uninit")):
+        return None
+    marker = nu[4] if len(nu) > 4 else None
+    for bi, si, s in body.assigns():
+        rv = s["rv"]
+        if rv["k"] == "aggregate" and rv.get("agg") == "array" and any(e["k"] == "deref" for e in s["place"]["p"]):
+            base = body.local_origin(s["place"]["l"])
+            if contains(base, lambda x: isinstance(x, tuple) and len(x) > 4 and x[0] == "call" and x[1].endswith("new_uninit") and x[4] == marker):
+                return [body.origin(o) for o in rv["ops"]]
+    return None
+
+
+def str_consts_in(body):
+    out = []
+    for bi, si, s in body.assigns():
+        for o in rv_operands(s["rv"]):
+            if o["k"] == "const" and "str" in o:
+                out.append(o["str"])
+    for bi, t in body.calls():
+        for o in t["args"]:
+            if o["k"] == "const" and "str" in o:
+                out.append(o["str"])
+    return out
